@@ -792,7 +792,7 @@ func body(w *hx.W) {
 	// ---- hostile inputs
 	rng := w.Rand("hostile")
 	states := []string{"notauth", "auth", "selected"}
-	n := w.Pick(2500, 15000)
+	n := w.Pick(2500, 40000)
 	for i := 0; i < n; i++ {
 		k := 1 + rng.Intn(3)
 		lines := make([]string, k)
